@@ -8,7 +8,7 @@ src, sid, prop = sys.argv[1], sys.argv[2], sys.argv[3]
 confirm = '--no-confirm' not in sys.argv
 run_checks = '--no-checks' not in sys.argv   # --no-checks: only confirm and store; tools/seed_recheck.py fills in the check results
 ROOT = '/verif'
-TARGET = '/tmp/verif_seed_target'
+TARGET = os.environ.get('VERIF_SEED_TARGET', '/tmp/verif_seed_target')
 
 def sh(cmd, cwd=None, env=None, timeout=1800):
     e = dict(os.environ)
@@ -56,7 +56,7 @@ d = scratch(True, False)
 claimed = [c['property_id'] for c in json.load(open(os.path.join(ROOT, 'MANIFEST.json')))['checks']]
 res = {}
 for p in (claimed if run_checks else []):
-    rc, out = sh('./check %s' % p, cwd=ROOT, env=dict(VERIF_REPO=d, VERIF_EVIDENCE_DIR='/tmp/vseed_evidence'))
+    rc, out = sh('./check %s' % p, cwd=ROOT, env=dict(VERIF_REPO=d, VERIF_EVIDENCE_DIR='/tmp/vseed_evidence_' + sid))
     res[p] = dict(exit=rc, lines=[l for l in out.split('\n') if l.startswith('VIOLATION') or l.startswith('UNDECIDED')][:6])
 shutil.rmtree(d)
 meta['checks'] = res
